@@ -42,6 +42,24 @@ theorem join_wf (G : Geo α) (p q : RPath α) (hp : WF G.ptEq p) (hq : WF G.ptEq
 theorem append_wf (G : Geo α) (p q : RPath α) (hp : WF G.ptEq p) (hq : WF G.ptEq q) : WF G.ptEq (append p q) :=
   Option.isSome_iff_exists.2 (append_ok_weak _ (Option.isSome_iff_exists.1 hp) (Option.isSome_iff_exists.1 hq))
 
+/-- Join's close repair never reaches past the next MoveTo: whatever the joined piece `pre` contains,
+every record of q from its next MoveTo on — in particular the Close of every later subpath, with the
+coordinates of ITS OWN MoveTo — is copied unchanged (array order, as in path.go:337-347). -/
+theorem join_repair_stops_at_moveTo (e a : Pt α) (pre t : List (Cmd α)) (h : ∀ c ∈ pre, c.isMove = false) :
+    repairClose e (pre ++ .move a :: t) = repairClose e pre ++ .move a :: t := by
+  induction pre with
+  | nil => rfl
+  | cons c rest ih =>
+    have hc := h c (List.mem_cons_self ..)
+    have ih' := ih (fun c' hc' => h c' (List.mem_cons_of_mem _ hc'))
+    cases c with
+    | move p => simp [Cmd.isMove] at hc
+    | close p => simp [repairClose]
+    | line p => simp [repairClose, ih']
+    | quad cp p => simp [repairClose, ih']
+    | cube c1 c2 p => simp [repairClose, ih']
+    | arc rx ry phi l s p => simp [repairClose, ih']
+
 /-- MAIN THEOREM.  Every path reachable through the construction API — any tree of primitive calls,
 `Join`s and `Append`s of earlier results — is well-formed, for ARBITRARY answers of the geometric
 predicates. -/
